@@ -1,4 +1,5 @@
 import Driver.Slots
+import Driver.Wh
 import Driver.Sched
 import Driver.Report
 import Driver.Spell
@@ -12,6 +13,7 @@ open SPD
 
 def handlers : List (List String × (List String → String)) := [
   (slotsCmds, handleSlots),
+  (whCmds, handleWh),
   (reportCmds, handleReports),
   (spellCmds, handleSpell),
   (hiddenCmds, handleHidden)
